@@ -2549,3 +2549,44 @@ Proof.
   intros Hc Hf Hr Ho Hq st'. pose proof (op_keeps env op recv other t n st Hc Hf Hr Ho) as Hk.
   split; [eapply ref_ok_keeps; eauto|apply abs1_keeps; auto].
 Qed.
+
+(* ==================================================================== the frame Aggregate returns is well formed *)
+(* Grouper.Aggregate gives every column of its result the position it has in the NEW header (an aggregated
+   column used to keep the position of its source column in the grouped frame, so that the by-name map of the
+   result pointed outside the header or at another column).  A frame with two columns A, B; GroupBy() without key
+   columns; Aggregate(fn over B, as C): the result has the single column C at position 0, its by-name map agrees
+   with its header (ref_ok_b, hence ref_ok for every decoder), although the source column B sits at position 1. *)
+Module AggregateRefExamples.
+  Import HeapExamples AggExamples.
+  Definition cA2 := mkCol nA 0 0 [mkSlice (0, 3) 0 4 4].
+  Definition cB2 := mkCol nB 1 0 [mkSlice (0, 4) 0 4 4].
+  Definition st2 : store :=
+    [((0, 0), [VZ 0; VZ 1; VZ 3; VZ 2]);
+     ((0, 1), [VCol cA2; VCol cB2]);
+     ((0, 2), [VMap [(nA, cA2); (nB, cB2)]]);
+     ((0, 3), [VZ 30; VZ 10; VZ 5; VZ 20]);
+     ((0, 4), [VZ 1; VZ 2; VZ 3; VZ 4])].
+  Definition qf2 := mkQF (mkSlice (0, 1) 0 2 2) (Some (0, 2)) (mkSlice (0, 0) 0 4 4) false.
+  Definition g2_run := run env0 0 (op_group_by gp0 [] qf2) 10 st2.
+  Definition g2 : grouper := match fst (fst g2_run) with Ok g => g | _ => mkG nil_slice [] nil_slice None true end.
+  Definition st_g2 : store := snd g2_run.
+  Definition aggs2 : list agg := [mkAgg false (Some 1%N) 0%N nB nC].
+  Definition r2 := run env0 2 (op_aggregate aggs2 g2) 0 st_g2.
+
+  Example aggregate_positions :
+    ref_ok_b st2 qf2 = true /\ c_pos cB2 = 1 /\
+    match fst (fst r2) with
+    | Ok q => ref_ok_b (snd r2) q = true
+              /\ map (fun c => (c_name c, c_pos c)) (hdr_of (snd r2) (q_cols q)) = [(nC, 0)]
+              /\ map (fun e => (fst e, c_pos (snd e))) (map_of (snd r2) (q_map q)) = [(nC, 0)]
+    | _ => False
+    end.
+  Proof. vm_compute. repeat split; reflexivity. Qed.
+
+  Theorem aggregate_result_ref_ok dec :
+    match fst (fst r2) with Ok q => ref_ok dec (snd r2) q | _ => False end.
+  Proof.
+    destruct (fst (fst r2)) as [q| |] eqn:E; try (vm_compute in E; discriminate E).
+    apply ref_ok_b_sound. pose proof aggregate_positions as (_ & _ & H). rewrite E in H. apply H.
+  Qed.
+End AggregateRefExamples.
